@@ -4,6 +4,7 @@ import (
 	"fmt"
 	"math/big"
 	"math/rand"
+	"sync"
 
 	"github.com/consensys/gnark/test"
 
@@ -214,6 +215,55 @@ func runC05(o *cli.Opts, run *evid.Run) {
 			checkDerived(key+"/derived", a, b, i%400 == 0)
 		}
 	})
+	// several circuits using the gadgets are DEFINED at the same time (gnark's own test helpers do this with
+	// t.Parallel; setup of both modes may run concurrently): every one of them must still be the reference function
+	{
+		var wg sync.WaitGroup
+		for g := 0; g < 8; g++ {
+			g := g
+			wg.Add(1)
+			go func() {
+				defer wg.Done()
+				defer func() {
+					if p := recover(); p != nil {
+						run.Violate(fmt.Sprintf("C05/concurrent-define/%d/panic", g), fmt.Sprintf("defining Poseidon circuits concurrently panics: %v", p), nil)
+					}
+				}()
+				r := gen.RNG(o.Seed, fmt.Sprint("C05/concurrent-define/", g))
+				for it := 0; it < o.Pick(30, 300); it++ {
+					key := fmt.Sprintf("C05/concurrent-define/%d/%d", g, it)
+					if !run.Wants(key) {
+						continue
+					}
+					a, b := c05Elem(r), c05Elem(r)
+					ok := true
+					switch (g + it) % 3 {
+					case 0:
+						if err := test.IsSolved(&P2Circuit{}, &P2Circuit{A: a, B: b, Out: ref.H2(a, b)}, rmon.BN254); err != nil {
+							ok = false
+							run.Violate(key, "Poseidon2 defined while other Poseidon circuits are being defined differs from the reference: "+trim(err), nil)
+						}
+					case 1:
+						if err := test.IsSolved(&P1Circuit{}, &P1Circuit{In: a, Out: ref.H1(a)}, rmon.BN254); err != nil {
+							ok = false
+							run.Violate(key, "Poseidon1 defined while other Poseidon circuits are being defined differs from the reference: "+trim(err), nil)
+						}
+					default:
+						sys, err := rmon.Compile(rmon.BN254, &P2Circuit{})
+						if err != nil {
+							ok = false
+							run.Violate(key, "compiling a Poseidon2 circuit while others are being defined fails: "+trim(err), nil)
+						} else if res := sys.Solve(&P2Circuit{A: a, B: b, Out: ref.H2(a, b)}, nil); !res.Accepted {
+							ok = false
+							run.Violate(key, "a Poseidon2 circuit compiled while others are being defined rejects the reference digest", nil)
+						}
+					}
+					run.Case("concurrent-define", true, key, ok, map[string]any{"goroutine": g, "iteration": it})
+				}
+			}()
+		}
+		wg.Wait()
+	}
 	run.Require("engine runs", run.GetInt("engine_runs"), 10)
 	run.Require("positive Poseidon2 cases", run.ClassTally("random/p2/pos").Cases, 1000)
 }
